@@ -180,6 +180,29 @@ func c06Case(m *Model, v *Verdict, rng *RNG, et int32, l int) {
 			break
 		}
 	}
+	// the same difference in two octets of the integrity tag (a comparison that folds the differences
+	// together instead of collecting them lets these through)
+	{
+		tagLen := specMacLen(et)
+		tagStart := len(ct) - tagLen
+		if et == 23 {
+			tagStart = 0
+		}
+		for k := 0; k < 6 && tagLen >= 2; k++ {
+			i, j := rng.Intn(tagLen), rng.Intn(tagLen)
+			if i == j {
+				j = (i + 1) % tagLen
+			}
+			d := byte(1 << uint(rng.Intn(8)))
+			if k >= 3 {
+				d = byte(1 + rng.Intn(255))
+			}
+			c := append([]byte{}, ct...)
+			c[tagStart+i] ^= d
+			c[tagStart+j] ^= d
+			check("tag-two-octets-same-delta", key, usage, c, false, true)
+		}
+	}
 	// keys of another length that begin with, or are the beginning of, the right key (a zero octet appended
 	// does not change what HMAC computes: the length itself has to be checked)
 	check("key-other-length", append(append([]byte{}, key...), 0), usage, ct, false, true)
